@@ -240,8 +240,9 @@ def _check_three(acc: Acc, cmd: str, pname: str, res: dict, front: str):
         for f, c in codes.items():
             if c != want:
                 acc.fail({"check": "exit-vs-count", "format": f, "got": c, **base}, case, {"violations": n, "exit": want}, {"exit": c, "stderr": res[f]["stderr"][-200:]})
-    elif codes["json"] not in (2,):
-        acc.fail({"check": "exit-without-output", **base}, case, "exit 2 when no result can be produced", codes)
+    else:
+        # the project exists and the options are valid: the run CAN be performed
+        acc.fail({"check": "run-aborted", **base, "exit": codes["json"]}, case, "exit 0/1 with a report", {"codes": codes, "stderr": res["json"]["stderr"][-300:]})
     if jv is None:
         return 0
     # --- SARIF
@@ -354,13 +355,16 @@ def run_item(item) -> Acc:
     elif k == "errors":
         cmd = item["cmd"]
         files, cfg = projs["zoo-python"]
-        root = project({**files, "good.yaml": yaml_dump(cfg), "bad.yaml": "nesting: [unclosed\n  x: {", "bad.json": '{"nesting": ', "notadir.txt": "x"})
+        root = project({**files, "good.yaml": yaml_dump(cfg), "bad.yaml": "nesting: [unclosed\n  x: {", "bad.json": '{"nesting": ', "notadir.txt": "x", "list.yaml": "- nesting\n- srp\n", "scalar.yaml": "just a string\n", "list.json": "[1, 2]"})
         classes = {
             "missing-path": [cmd, "does/not/exist.py"],
             "missing-path-among-good": [cmd, ".", "nope.py"],
             "missing-config": [cmd, "--config", "nope.yaml", "."],
             "malformed-yaml-config": [cmd, "--config", "bad.yaml", "."],
             "malformed-json-config": [cmd, "--config", "bad.json", "."],
+            "yaml-config-is-a-list": [cmd, "--config", "list.yaml", "."],
+            "yaml-config-is-a-scalar": [cmd, "--config", "scalar.yaml", "."],
+            "json-config-is-a-list": [cmd, "--config", "list.json", "."],
             "unknown-option": [cmd, "--no-such-option", "."],
             "bad-format": [cmd, "--format", "xml", "."],
             "project-root-not-a-dir": ["--project-root", "notadir.txt", cmd, "."],
@@ -387,7 +391,7 @@ def run_item(item) -> Acc:
                 if r["exit_code"] != 2:
                     acc.fail({"check": "usage-error-exit", "class": cls, "got": r["exit_code"], "command": cmd if cls.endswith("threshold") else "any"}, {"cmd": cmd, "argv": a, "error_class": cls}, {"exit": 2}, {"exit": r["exit_code"], "stdout": r["stdout"][:200], "stderr": r["stderr"][-300:], "exception": r.get("exception")})
         # auto-discovered malformed config
-        for name, content in ((".thailint.yaml", "nesting: [unclosed\n  x: {"), (".thailint.json", '{"nesting": ')):
+        for name, content in ((".thailint.yaml", "nesting: [unclosed\n  x: {"), (".thailint.json", '{"nesting": '), (".thailint.yaml", "- a\n- list\n")):
             r2 = project({**files, name: content})
             r = obs.cli_inproc([cmd, "."], r2)
             acc.case()
